@@ -248,7 +248,7 @@ def domain(ctx, res):
 
 def run(ctx, cases=None):
     res = Result()
-    from multiprocessing import Pool
+    from ..common import Pool
     if cases is None:
         classes, written, triples, near_one, ns, pairs, texts, res.rule = domain(ctx, res)
         with Pool(16) as pool:
